@@ -380,6 +380,9 @@ class ExprMixin:
             if hint is None or hint.kind != "list":
                 raise Unsupported("empty list literal of unknown element type (declare the target in the contract's locals)")
             return self.new_list(hint.arg, None, z3.IntVal(0), st)
+        if all(is_sv(i) for i in items) and len({i.ty.kind for i in items}) > 1 and not all(i.ty.is_num for i in items):
+            # heterogeneous literal ([id, json_text] as the parameter list of an SQL statement): an immutable tuple value
+            return mk_tuple(items)
         ety = items[0].ty
         if any(i.ty.kind == "real" for i in items) and all(i.ty.is_num for i in items):
             ety = REAL
@@ -819,6 +822,9 @@ class ExprMixin:
                 if cv is not None:
                     key = "$cv.%s.%s" % (cv[0], attr)
                     return SV(cv[1], st.harr(key, sort_of(cv[1])))
+                c = self.source_class_constant(base.name, attr)
+                if c is not None:
+                    return self.static_value(c)
                 return PyVal("classattr", cls=base.name, name=attr)
             if base.kind == "ns":
                 if attr in base.table:
@@ -838,10 +844,28 @@ class ExprMixin:
             s = self.reg.static(cname, attr)
             if s is not None:
                 return self.static_value(s)
+            c = self.source_class_constant(cname, attr)
+            if c is not None:
+                return self.static_value(c)
             return PyVal("boundmethod", recv=base, name=attr, cls=None)
         if base.ty.kind in ("list", "seq", "tuple", "real", "int"):
             return PyVal("boundmethod", recv=base, name=attr, cls=None)
         raise Unsupported("attribute %s of %r" % (attr, base.ty))
+
+    def source_class_constant(self, cname, attr):
+        """NAME = <str/number literal> in the body of the class in the REAL source (module of the function being verified)"""
+        try:
+            node = self.frontend.find(self.contract.module, cname)
+        except Exception:
+            return None
+        if node is None or not isinstance(node, ast.ClassDef):
+            return None
+        found = None
+        for ch in node.body:
+            if isinstance(ch, ast.Assign) and len(ch.targets) == 1 and isinstance(ch.targets[0], ast.Name) and ch.targets[0].id == attr \
+                    and isinstance(ch.value, ast.Constant) and isinstance(ch.value.value, (str, int, float)):
+                found = ch.value.value
+        return found
 
     def static_value(self, s):
         if isinstance(s, dict):
